@@ -434,3 +434,55 @@ def gen_scripted(rng, repo, sizes):
                 'getInstance', 'createInstance', 'getClass', 'getQualifier'):
             spec['n'] = 1
     return {'op': k, 'args': args}, spec
+
+
+# ----------------------------------------------------------------------------- optional parameters omitted / given
+
+def gen_optional_history(rng, sizes):
+    """read operations on existing targets (class level and instance level) where every optional parameter is
+    systematically omitted (None) / True / False / given: the first call of each (operation, target) pair omits ALL
+    optional parameters, so a server-side default that differs from "not supplied" shows in the full result"""
+    S = sig()
+    ops = []
+    targets_cls = [{'t': 'str', 'v': 'TST_P'}, {'t': 'str', 'v': 'TST_Q'}, {'t': 'str', 'v': 'TST_L'},
+                   {'t': 'cname', 'cls': 'TST_P', 'ns': 'root/a', 'host': None}]
+    n_a = sizes.get('root/a', 0)
+    targets_inst = [{'t': 'iname', 'cls': 'TST_P', 'key': 'p0', 'ns': 'root/a', 'host': None},
+                    {'t': 'iname', 'cls': 'TST_P', 'key': 'p1', 'ns': 'root/a', 'host': None}] if n_a > 1 else \
+        [{'t': 'iname', 'cls': 'TST_P', 'key': 'p0', 'ns': 'root/a', 'host': None}]
+    plan = [('References', 'ObjectName', targets_cls[:3]), ('Associators', 'ObjectName', targets_cls[:2]),
+            ('ReferenceNames', 'ObjectName', targets_cls[:1]), ('AssociatorNames', 'ObjectName', targets_cls[:1]),
+            ('References', 'ObjectName', targets_inst), ('Associators', 'ObjectName', targets_inst),
+            ('GetClass', 'ClassName', targets_cls), ('EnumerateClasses', 'ClassName', targets_cls[:2] + [{'t': 'none'}]),
+            ('EnumerateClassNames', 'ClassName', targets_cls[:1] + [{'t': 'none'}]),
+            ('GetInstance', 'InstanceName', targets_inst), ('EnumerateInstances', 'ClassName', targets_cls[:2]),
+            ('OpenEnumerateInstances', 'ClassName', targets_cls[:1]),
+            ('OpenReferenceInstances', 'InstanceName', targets_inst[:1]),
+            ('OpenAssociatorInstances', 'InstanceName', targets_inst[:1])]
+    rng.shuffle(plan)
+    for opname, tparam, targets in plan[:rng.choice([5, 6, 7])]:
+        row = S[opname]
+        for target in targets:
+            for variant in range(rng.choice([1, 2, 3])):
+                args = {}
+                if row['rule'][0] in ('ns', 'nsOrClass'):
+                    args['namespace'] = {'t': 'str', 'v': 'root/a'} if target.get('t') != 'cname' else {'t': 'none'}
+                for pname, kind, req in row['params']:
+                    if pname == tparam:
+                        args[pname] = target
+                    elif variant == 0:
+                        args[pname] = {'t': 'none'}                      # everything optional omitted
+                    elif kind == 'bool':
+                        args[pname] = rng.choice([{'t': 'none'}, {'t': 'bool', 'v': True}, {'t': 'bool', 'v': False}])
+                    elif kind == 'plist':
+                        args[pname] = rng.choice([{'t': 'none'}, {'t': 'none'}, {'t': 'strs', 'v': ['name']}, {'t': 'strs', 'v': []}])
+                    elif kind == 'cls':
+                        args[pname] = rng.choice([{'t': 'none'}, {'t': 'none'}, {'t': 'str', 'v': 'TST_L'}, {'t': 'str', 'v': 'TST_P'}])
+                    elif kind == 'str' and pname in ('Role', 'ResultRole'):
+                        args[pname] = rng.choice([{'t': 'none'}, {'t': 'none'}, {'t': 'str', 'v': 'parent'}, {'t': 'str', 'v': 'child'}])
+                    elif kind == 'maxobj':
+                        args[pname] = rng.choice([{'t': 'none'}, {'t': 'int', 'v': 1}, {'t': 'int', 'v': 100}])
+                    else:
+                        args[pname] = {'t': 'none'}
+                ops.append({'op': opname, 'args': args})
+    return ops
